@@ -410,10 +410,22 @@ std::string random_text(vh::rng& r, std::size_t len, bool small_alpha) {
   return t;
 }
 
-// texts around the truncation boundary
+// texts around the truncation boundary, and far beyond it (lengths that do not fit the
+// 16-bit size type: 65536 and up), together with a few short texts sharing the same head
 std::vector<std::string> boundary_texts(vh::rng& r) {
   std::vector<std::string> out;
   const std::string base = random_text(r, kMaxlen + 8, r.chance(0.5));
+  {
+    const std::string longer = base + random_text(r, 140000 - base.size(), false);
+    for (const std::size_t len : {std::size_t{65536}, std::size_t{65537}, std::size_t{65541}, std::size_t{65536 + 300}, std::size_t{131072}, std::size_t{131072 + 7}, std::size_t{140000}}) out.push_back(longer.substr(0, len));
+    out.push_back(std::string());
+    out.push_back(base.substr(0, 1));
+    out.push_back(base.substr(0, 5));
+    out.push_back(base.substr(0, 300));
+    std::string other = longer.substr(0, 65536);
+    other[0] = static_cast<char>(static_cast<unsigned char>(other[0]) ^ 0x40U ? static_cast<unsigned char>(other[0]) ^ 0x40U : 1);
+    out.push_back(other);
+  }
   for (long d = -3; d <= 3; ++d) {
     std::string t = base.substr(0, static_cast<std::size_t>(static_cast<long>(kMaxlen) + d));
     out.push_back(t);
